@@ -39,7 +39,7 @@ import itertools, json, os, re
 from vlib import treegen as tg, paths
 from checks import c06
 
-LEAN_TARGETS = ["LyModel.Props.C13", "LyModel.Props.C13Merge", "LyModel.Props.C13Tree", "LyModel.Props.C13RevUO"]
+LEAN_TARGETS = ["LyModel.Props.C13", "LyModel.Props.C13Merge", "LyModel.Props.C13Tree", "LyModel.Props.C13RevUO", "LyModel.Props.C13RevUOTree"]
 AUDIT = "Audit/C13.lean"
 GENERATED = ["Diff13"]
 HARNESS = "api_diff13"
@@ -1017,6 +1017,19 @@ def exhaustive_reverse(cx):
         if kind in ("list", "leaflist"):
             # the identity-addressed kinds: the list core of userord_apply_diff / userord_reverse_apply against libyang's diff nodes
             core_tie(cx, kind, pairs, seen)
+        if kind == "leaflist":
+            # the open hypothesis of Props/C13RevUOTree.lean (reverse_apply_userord_flat_ll_fixed_of_diff): the diff of two flat
+            # top-level leaf-list sibling lists is the encoding of UORev.diffO, orig-value included — evaluated by the model on its
+            # own diff (= libyang's: stage 1 of process) for every exhaustive top-level pair
+            flat = [c for c in cases if c.a is not None and c.b is not None and not (c.A and c.A[0].sn.kind == "container")
+                    and not (c.B and c.B[0].sn.kind == "container") and 1 not in c.gap]
+            lines = ["h%d diff13 uohdiff %s %s %s" % (i, tg.hx(s.dsl()), c.a, c.b) for i, c in enumerate(flat)]
+            rm = run_model(cx, [s], lines)
+            for l in lines:
+                r = rm.get(l.split()[0], ["err", "NoReply"])
+                cx.count(" ".join(l.split()[2:]), False, "uohdiff:" + " ".join(r[:2]))
+                if r[:2] == ["ok", "0"] or r[0] != "ok":
+                    cx.disagree(COMP, l, ["ok", "1"], r)
         cx.notes.append("exhaustive (reverse) %s <= %d keys: %d of %d (pair, option) evaluations fail" % (
             kind, nk, cx.dist["law:reverse:fails"] - before[0],
             cx.dist["law:reverse:fails"] - before[0] + cx.dist["law:reverse:holds"] - before[1]))
